@@ -279,6 +279,70 @@ def readColumn (o : ColOpts) (bt : Nat) (xs : List Cell) (start : Nat) (ops : Li
   (blockInfos o (buildColumn o bt xs).1 (buildColumn o bt xs).2).map
     fun blocks => runOps (ColIter.new blocks (defaultItem o.kind) start) ops
 
+/-- **Reads refine slices (partial: scan programs, columns whose blocks are not plain-nullable).**
+Invariant proof over ARBITRARY sequences of `next_batch(Some k)` (any k ≥ 1), `next_batch(None)`,
+hint-bounded batches, `fetch_hint` and `fetch_current_row_id`, from ANY good iterator state (`GoodState`:
+what `new` and every such operation leave behind): every returned `(row_id, batch)` has
+`row_id` = the logical position, `batch = xs[row_id .. row_id+len]`, `1 ≤ len ≤ k`; the position advances
+by `len`, so the concatenation of the batches is `xs[start ..]` in order; `None` only at the end.
+Hypotheses: well-formed decoded blocks (what `column_roundtrip` delivers) and no block read through a
+top-level `NullableBlockIterator` — exactly the hypothesis that excludes
+`nullable_cross_block_witness`; it covers non-nullable plain columns and all RLE / dictionary columns
+(nullable or not).  NOT covered by a theorem: `skip` / seeking to a start row > 0 (`skip_inner`,
+fake iterator, `block_of_row`) and plain-nullable columns under the `fetch_hint` discipline. -/
+theorem iter_refines_slice_partial (blocks : List BlockInfo) (dflt : Bytes)
+    (hraw : ∀ b ∈ blocks, b.rawNullable = false) (hwf : WfBlocks blocks 0)
+    (ops : List IterOp) (hops : ∀ op ∈ ops, ScanOp op) (c : ColIter) (hg : GoodState blocks dflt c) :
+    SpecScan (cellsOf blocks) c.rowId ops (runOps c ops) :=
+  scan_spec blocks dflt hraw hwf ops hops c hg
+
+/-- End to end: build a column (any kind / block size; RLE or dictionary, or non-nullable plain), decode
+it, scan it from row 0 with any scan program: the outputs are the slices of the written cells. -/
+theorem iter_refines_slice_scan (o : ColOpts) (bt : Nat) (hbt : bt < BLOCK_TYPE_COUNT) (xs : List Cell)
+    (hk : KindOk o.kind xs) (hlen : xs.length < 2 ^ 29) (heq : o.enc = .plain ∨ EqSound o.eq)
+    (hn : o.nullable = true ∨ o.enc = .dict ∨ ∀ c ∈ xs, c ≠ none)
+    (hplain : (o.nullable && o.enc == .plain) = false) (hne : xs ≠ [])
+    (ops : List IterOp) (hops : ∀ op ∈ ops, ScanOp op) :
+    ∃ blocks, blockInfos o (buildColumn o bt xs).1 (buildColumn o bt xs).2 = some blocks
+      ∧ SpecScan xs 0 ops (runOps (ColIter.new blocks (defaultItem o.kind) 0) ops) := by
+  obtain ⟨h1, h2, h3⟩ := column_roundtrip o bt hbt xs hk hlen heq
+  refine ⟨_, h1, ?_⟩
+  have hraw : ∀ b ∈ infosOf o (cut o xs) 0, b.rawNullable = false := by
+    generalize cut o xs = chunks
+    generalize (0 : Nat) = row
+    induction chunks generalizing row with
+    | nil => intro b hb; simp [infosOf] at hb
+    | cons ch rest ih =>
+      intro b hb
+      simp only [infosOf, List.mem_cons] at hb
+      rcases hb with rfl | hb
+      · exact hplain
+      · exact ih _ b hb
+  have hne' : infosOf o (cut o xs) 0 ≠ [] := by
+    intro h0
+    have := congrArg (fun l => l.flatMap (·.cells)) h0
+    simp only [h2, List.flatMap_nil] at this
+    cases xs with
+    | nil => exact hne rfl
+    | cons x rest => simp at this
+  obtain ⟨hg, hr0⟩ := new_good _ (defaultItem o.kind) hraw h3 hne'
+  have := iter_refines_slice_partial _ _ hraw h3 ops hops _ hg
+  rw [hr0] at this
+  have hx : cellsOf (infosOf o (cut o xs) 0) = xs := by
+    show (infosOf o (cut o xs) 0).flatMap (·.cells) = xs
+    rw [h2, map_storedOf_id o xs hn]
+  rwa [hx] at this
+
+example : ∃ blocks, blockInfos { kind := .fixed 1, nullable := true, enc := .rle, blockSize := 19 }
+      (buildColumn { kind := .fixed 1, nullable := true, enc := .rle, blockSize := 19 } 6 [some [1], none, none, some [2]]).1
+      (buildColumn { kind := .fixed 1, nullable := true, enc := .rle, blockSize := 19 } 6 [some [1], none, none, some [2]]).2
+        = some blocks
+    ∧ SpecScan [some [1], none, none, some [2]] 0 [.next (some 3), .hint, .next none]
+        (runOps (ColIter.new blocks (defaultItem (.fixed 1)) 0) [.next (some 3), .hint, .next none]) :=
+  iter_refines_slice_scan _ 6 (by decide) _ (by intro it hit; simp at hit; rcases hit with rfl | rfl <;> rfl)
+    (by decide) (.inr eqSound_bytes) (.inl rfl) rfl (by decide) _
+    (by intro op hop; simp at hop; rcases hop with rfl | rfl | rfl <;> simp [ScanOp])
+
 /-- FULL statement of the read side of C06 (kept visible): for every nullable column, every start
 row and every read program, each returned (row_id, batch) is the slice of the input at row_id. -/
 def IterRefinesSliceFull : Prop :=
